@@ -16,10 +16,11 @@ import os
 import random
 
 GRAMMAR = r"""
-Model:   ('model' name=ID)? imports*=Import ('first' first=Def)? elems*=Elem;
+Model:   ('model' name=ID)? imports*=Import ('first' first=Def)? ('root' root=Pkg)? elems*=Elem;
 Import:  'import' importURI=STRING;
 Elem:    Pkg | Grp | Box | Slot | Def | Use | UseList;
-Pkg:     'pkg' name=ID '{' ('head' head=DefB)? ('defs' defs+=Def ';')? elems*=Elem '}';
+Pkg:     'pkg' name=ID '{' ('head' head=DefB)? ('defs' defs+=Def ';')? elems*=Elem (note=Note)? '}';
+Note:    'note' name=ID;
 Grp:     items+=Def['&'] ';';
 Box:     inner=Cell;
 Cell:    'cell' name=ID;
@@ -38,9 +39,10 @@ Comment: /#.*$/;
 # containment attributes per kind in meta-attribute order (the renderer's view of the carrier;
 # the module has the same table as CarrierMeta and the driver checks both against the metamodel)
 SLOTS = {
-    "Model": [("imports", True, "Import"), ("first", False, "Def"), ("elems", True, "Elem")],
+    "Model": [("imports", True, "Import"), ("first", False, "Def"), ("root", False, "Pkg"), ("elems", True, "Elem")],
     "Import": [],
-    "Pkg": [("head", False, "DefB"), ("defs", True, "Def"), ("elems", True, "Elem")],
+    "Pkg": [("head", False, "DefB"), ("defs", True, "Def"), ("elems", True, "Elem"), ("note", False, "Note")],
+    "Note": [],
     "Grp": [("items", True, "Def")],
     "Box": [("inner", False, "Cell")],
     "Slot": [("val", False, "Value")],
@@ -48,12 +50,12 @@ SLOTS = {
     "Plain": [],          # a plain value (Tag alternative of Value) held by Slot.val: not an object
 }
 ALLOWED = {"Import": ["Import"], "Def": ["DefA", "DefB"], "DefB": ["DefB"], "Cell": ["Cell"],
-           "Value": ["Plain", "Cell"],
+           "Value": ["Plain", "Cell"], "Pkg": ["Pkg"], "Note": ["Note"],
            "Elem": ["Pkg", "Grp", "Box", "Slot", "DefA", "DefB", "Use", "UseList"]}
 REF_ATTR = {"Use": ("ref", False), "UseList": ("refs", True), "DefA": ("extends", True)}
-RULES = ["Model", "Import", "Elem", "Pkg", "Grp", "Box", "Cell", "Slot", "Value", "Def", "DefA", "DefB", "Use",
+RULES = ["Model", "Import", "Elem", "Pkg", "Note", "Grp", "Box", "Cell", "Slot", "Value", "Def", "DefA", "DefB", "Use",
          "UseList"]
-NAMED = {"Pkg": "p", "Cell": "c", "DefA": "a", "DefB": "b"}
+NAMED = {"Pkg": "p", "Cell": "c", "DefA": "a", "DefB": "b", "Note": "n"}
 # replacement values a processor may return: an identifying string or a falsy (but not None) value
 FALSY = {"zero": 0, "empty": "", "list": [], "false": False, "tuple": (), "fzero": 0.0}
 SEPS = [" ", " ", " ", "\n", "  ", "\n  ", "\t", " # note\n", "\n\n"]
@@ -185,8 +187,8 @@ def render(scn, rng=None, plain=False):
                 at = t(txt)
                 refs[k].update(start=at[0], len=len(txt), text=txt, line=at[1], col=at[2])
                 off = 0
-                for part in name_.split("."):
-                    matches.append(dict(rule="ID", file=o["file"], text=part, line=at[1], col=at[2] + off))
+                for pk, part in enumerate(name_.split(".")):
+                    matches.append(dict(rule="ID", file=o["file"], text=part, line=at[1], col=at[2] + off, part=pk))
                     off += len(part) + len(dot)
                 matches.append(dict(rule="QName", file=o["file"], text=name_, line=at[1], col=at[2]))
 
@@ -199,6 +201,9 @@ def render(scn, rng=None, plain=False):
             if children(objs, i, "first"):
                 t("first")
                 spans += kids("first")
+            if children(objs, i, "root"):
+                t("root")
+                spans += kids("root")
             spans += kids("elems")
         elif kind == "Import":
             t("import")
@@ -213,6 +218,8 @@ def render(scn, rng=None, plain=False):
                 spans += kids("defs")
                 t(";")
             spans += kids("elems")
+            if children(objs, i, "note"):
+                spans += kids("note")
             t("}")
         elif kind == "Grp":
             for j, c in enumerate(children(objs, i, "items")):
@@ -224,6 +231,8 @@ def render(scn, rng=None, plain=False):
             spans += kids("inner")
         elif kind == "Cell":
             t("cell"); name()
+        elif kind == "Note":
+            t("note"); name()
         elif kind == "Slot":
             t("slot")
             spans += kids("val")
@@ -651,7 +660,8 @@ def random_scenario(rng, max_objs=12, nfiles=1, max_refs=6, max_postpone=2):
         for _ in range(k):
             if budget() <= 2:
                 break
-            kind = rng.choice(["Pkg", "Grp", "Box", "Slot", "DefA", "DefB", "Use", "UseList", "DefB", "Use", "Slot"])
+            kind = rng.choice(["Pkg", "Pkg", "Grp", "Box", "Slot", "DefA", "DefB", "Use", "UseList", "DefB", "Use",
+                               "Slot"])
             if kind == "Pkg" and depth >= 3:
                 kind = "DefA"
             c = add(kind, i, "elems", file)
@@ -662,10 +672,12 @@ def random_scenario(rng, max_objs=12, nfiles=1, max_refs=6, max_postpone=2):
         if kind == "Pkg":
             if rng.random() < 0.4 and budget() > 2:
                 add("DefB", i, "head", file)
-            if rng.random() < 0.5 and budget() > 3:
+            if rng.random() < 0.7 and budget() > 3:
                 for _ in range(rng.choice([1, 1, 2])):
                     add(rng.choice(["DefA", "DefB"]), i, "defs", file)
             fill_elems(i, file, depth)
+            if rng.random() < 0.3 and budget() > 1:
+                add("Note", i, "note", file)
         elif kind == "Grp":
             for _ in range(rng.choice([1, 2, 3])):
                 add(rng.choice(["DefA", "DefB"]), i, "items", file)
@@ -683,6 +695,8 @@ def random_scenario(rng, max_objs=12, nfiles=1, max_refs=6, max_postpone=2):
                 add("Import", root, "imports", f)
         if rng.random() < 0.4:
             add(rng.choice(["DefA", "DefB"]), root, "first", f)
+        if rng.random() < 0.25:
+            grow(add("Pkg", root, "root", f), f, 1)
         fill_elems(root, f, 0)
         if f > 1 and rng.random() < 0.7:       # imported models with several (postponable) references
             for _ in range(rng.choice([2, 3])):
@@ -706,16 +720,58 @@ def random_scenario(rng, max_objs=12, nfiles=1, max_refs=6, max_postpone=2):
         o["nref"] = k
         vis = [t for t in range(1, n + 1) if objs[t - 1]["kind"] in ("DefA", "DefB")
                and (objs[t - 1]["file"] == o["file"] or o["file"] == 1)]
+        deep = [t for t in vis if pkgdepth(t) >= 1]
         for _ in range(k):
-            t = rng.choice(vis)
-            refs.append(dict(owner=i, target=t, parts=rng.randint(1, min(3, 1 + pkgdepth(t))),
-                             sched=rng.randint(0, max_postpone)))
+            t = rng.choice(deep) if deep and rng.random() < 0.6 else rng.choice(vis)
+            most = min(3, 1 + pkgdepth(t))
+            parts = most if rng.random() < 0.5 else rng.randint(1, most)      # qualified names are frequent
+            refs.append(dict(owner=i, target=t, parts=parts, sched=rng.randint(0, max_postpone)))
     # every round must resolve something: make the used schedule values contiguous from 0
     used = sorted({r["sched"] for r in refs})
     rank = {v: k for k, v in enumerate(used)}
     for r in refs:
         r["sched"] = rank[r["sched"]]
     return dict(objs=objs, refs=refs, files=["main.m"])
+
+
+def qualified_templates():
+    """Small fixed forests whose references are written with 2 and 3 part names (composite matches)."""
+    def o(kind, parent, slot, nref=0, hdr=True, file=1):
+        return dict(kind=kind, parent=parent, slot=slot, file=file, hdr=hdr, nref=nref)
+    t1 = dict(objs=[o("Model", 0, "", hdr=False), o("Pkg", 1, "elems"), o("DefB", 2, "elems"), o("Use", 1, "elems", 1)],
+              refs=[dict(owner=4, target=3, parts=2, sched=0)], files=["main.m"])
+    t2 = dict(objs=[o("Model", 0, ""), o("Pkg", 1, "elems"), o("Pkg", 2, "elems"), o("DefA", 3, "defs"),
+                    o("UseList", 1, "elems", 2)],
+              refs=[dict(owner=5, target=4, parts=3, sched=0), dict(owner=5, target=4, parts=2, sched=0)],
+              files=["main.m"])
+    t3 = dict(objs=[o("Model", 0, "", hdr=False), o("Import", 1, "imports"), o("Pkg", 1, "elems"), o("DefB", 3, "head"),
+                    o("DefA", 3, "elems", 1), o("Model", 0, "", file=2), o("Pkg", 6, "elems", file=2),
+                    o("DefB", 7, "elems", file=2), o("Use", 6, "elems", 1, file=2)],
+              refs=[dict(owner=5, target=8, parts=2, sched=0), dict(owner=9, target=8, parts=2, sched=0)],
+              files=["main.m"])
+    return [t1, t2, t3]
+
+
+def recursive_templates():
+    """Fixed forests with packages nested two and three deep, entered through the attribute typed with
+    the concrete rule Pkg (Model.root) and through the abstract Elem, with notes after the recursive
+    attribute: the shapes on which registering processors for only some rules matters."""
+    def o(kind, parent, slot, nref=0, hdr=True, file=1):
+        return dict(kind=kind, parent=parent, slot=slot, file=file, hdr=hdr, nref=nref)
+    t1 = dict(objs=[o("Model", 0, "", hdr=False), o("Pkg", 1, "root"), o("Pkg", 2, "elems"), o("Pkg", 3, "elems"),
+                    o("Note", 4, "note"), o("Note", 3, "note"), o("Note", 2, "note"),
+                    o("Pkg", 1, "elems"), o("Pkg", 8, "elems"), o("Cell", 0, "inner"), o("Note", 9, "note"),
+                    o("Note", 8, "note")],
+              refs=[], files=["main.m"])
+    # fix the Box/Cell pair (a Cell needs its Box)
+    t1["objs"][9] = o("Box", 9, "elems")
+    t1["objs"].insert(10, o("Cell", 10, "inner"))
+    t1["objs"][11]["parent"], t1["objs"][12]["parent"] = 9, 8
+    t2 = dict(objs=[o("Model", 0, ""), o("Pkg", 1, "elems"), o("DefB", 2, "head"), o("Pkg", 2, "elems"),
+                    o("DefA", 4, "defs"), o("Slot", 4, "elems"), o("Plain", 6, "val"), o("Note", 4, "note"),
+                    o("Use", 2, "elems", 1), o("Note", 2, "note")],
+              refs=[dict(owner=9, target=5, parts=2, sched=0)], files=["main.m"])
+    return [t1, t2]
 
 
 def relevant_rules(scn):
